@@ -193,4 +193,27 @@ theorem ctz_two_pow (e : Nat) : ctz (2 ^ e) = e := by
     have h3 : 2 ^ (e + 1) / 2 = 2 ^ e := by rw [Nat.pow_succ]; omega
     simp [h2, h3, ih]
 
+/-- `check_k`'s test `(k & (k - 1)) == 0` (with `k ≥ 1`) means: `k` is a power of two -/
+theorem pow2_of_and_pred : ∀ (k : Nat), 0 < k → k &&& (k - 1) = 0 → ∃ e, k = 2 ^ e := by
+  intro k
+  induction k using Nat.strongRecOn with
+  | _ k ih =>
+    intro hk h
+    by_cases h1 : k = 1
+    · exact ⟨0, by simp [h1]⟩
+    · have hd : k / 2 &&& (k - 1) / 2 = 0 := by rw [← Nat.and_div_two, h]
+      rcases Nat.mod_two_eq_zero_or_one k with he | ho
+      · have hm : (k - 1) / 2 = k / 2 - 1 := by omega
+        rw [hm] at hd
+        obtain ⟨e, he'⟩ := ih (k / 2) (by omega) (by omega) hd
+        exact ⟨e + 1, by rw [Nat.pow_succ]; omega⟩
+      · have hm : (k - 1) / 2 = k / 2 := by omega
+        rw [hm, Nat.and_self] at hd
+        omega
+
+theorem checkK_pow2 {minK maxK k : Nat} (hmin : 0 < minK) (h : checkK minK maxK k = true) : ∃ e, k = 2 ^ e := by
+  unfold checkK at h
+  simp only [Bool.and_eq_true, decide_eq_true_eq, beq_iff_eq] at h
+  exact pow2_of_and_pred k (by omega) h.2
+
 end DS.Quantiles
